@@ -55,6 +55,7 @@ def base_trees() -> Iterator[Tuple[str, Program]]:
     ]))
     yield rev_tree()
     yield multidef_tree()
+    yield strname_tree()
     yield ("bools", Program(children=[
         Cfg("A", "bool", prompt="a", defaults=[(L("y"), None)]),
         Cfg("X", "bool", prompt="x", defaults=[(L("y"), S("A"))]),
@@ -71,6 +72,17 @@ def multidef_tree() -> Tuple[str, Program]:
         Cfg("X", "int", prompt="x one", depends=[S("C1")], defaults=[(L("10"), None)]),
         Cfg("X", "int", prompt="x two", depends=[S("C2")]),
         Cfg("U", "bool", prompt="u", defaults=[(L("y"), Rel("=", S("X"), L("10")))]),
+    ]))
+
+
+def strname_tree() -> Tuple[str, Program]:
+    # string options whose stored text spells the NAME of another option / a tristate letter / a number
+    return ("strname", Program(children=[
+        Cfg("V", "int", prompt="v", defaults=[(L("3"), None)]),
+        Cfg("T", "string", prompt="t", defaults=[(L('"V"'), None)]),
+        Cfg("U", "string", prompt="u", defaults=[(L('"y"'), None)]),
+        Cfg("W", "string", prompt="w", defaults=[(L('"0x10"'), None)]),
+        Cfg("F", "bool", prompt="f", defaults=[(L("y"), Rel("=", S("T"), L('"V"')))]),
     ]))
 
 
@@ -110,6 +122,9 @@ def changes(tree: str, p: Program) -> Iterator[Tuple[str, Program]]:
         q = copy.deepcopy(p); find(q, "W").defaults = [(L("6"), None)]; yield ("default_literal", q)
         q = copy.deepcopy(p); find(q, "T").defaults = [(L("y"), None)]; yield ("default_condition_source_changed", q)
         q = copy.deepcopy(p); find(q, "G").defaults = [(L("n"), None)]; find(q, "W").defaults = [(L("6"), None)]; yield ("upstream_and_own_default_changed", q)
+    elif tree == "strname":
+        q = copy.deepcopy(p); find(q, "T").defaults = [(L('"other"'), None)]; yield ("default_literal", q)
+        q = copy.deepcopy(p); find(q, "U").defaults = [(L('"n"'), None)]; find(q, "W").defaults = [(L('"7"'), None)]; yield ("default_literals_tristate_number", q)
     elif tree == "multidef":
         q = copy.deepcopy(p); find(q, "X").defaults = [(L("20"), None)]; yield ("default_literal", q)
         q = copy.deepcopy(p); find(q, "C1").defaults = [(L("n"), None)]; yield ("upstream_default_changed", q)
@@ -131,6 +146,7 @@ def changes(tree: str, p: Program) -> Iterator[Tuple[str, Program]]:
 OPS_REV = [("set", "G", "n"), ("set", "G", "y"), ("set", "T", "y"), ("set", "W", "3"), ("set", "V", "vu"), ("reset", "G"), ("reset", "W")]
 OPS = {
     "reversed": OPS_REV,
+    "strname": [("set", "V", "8"), ("set", "T", "tu"), ("set", "T", "V"), ("set", "U", "n"), ("reset", "T"), ("reset", "V")],
     "multidef": [("set", "C2", "y"), ("set", "C1", "n"), ("set", "C1", "y"), ("set", "X", "33"), ("set", "U", "n"), ("reset", "X"), ("reset", "C1")],
     "ints": [("set", "A", "y"), ("set", "A", "n"), ("set", "X", "3"), ("set", "Y", "8"), ("set", "H", "hu"), ("reset", "X"), ("reset", "A"), ("unset", "Y")],
     "choice": [("set", "A", "y"), ("set", "M1", "y"), ("set", "M2", "y"), ("set", "M3", "y"), ("set", "X", "0x33"), ("reset", "M1"), ("reset", "A")],
